@@ -151,7 +151,7 @@ func TestC02(t *testing.T) {
 				for k2 := 0; k2 < 19; k2++ {
 					for _, fixed := range []map[string]int{
 						nil,
-						{"cl_last_term": 2},              // no separator before the closer where the grammar allows
+						{"cl_last_term": 2},               // no separator before the closer where the grammar allows
 						{"cl_last_term": 1, "cl_term": 1}, // newlines
 						{"pipe_n": 4},
 						{"andor_n": 4},
